@@ -1653,13 +1653,19 @@ class TrajectoryStore:
                 )
                 data[name] = val
                 if Dimension.POINT in field.dimensions and npoints is None:
+                    # Optional fields may have no value and species-indexed
+                    # fields may have no species: take the number of points
+                    # from the first per-point field that has data.
+                    if val is None:
+                        continue
                     if Dimension.SPECIES in field.dimensions:
                         # Get number of points from arbitrary entry in the
                         # SpeciesValues dictionary here.
-                        npoints = len(next(iter(data[name].values())))
+                        if len(val) > 0:
+                            npoints = len(next(iter(val.values())))
                     else:
                         # Data should be a simple Numpy array here.
-                        npoints = len(data[name])
+                        npoints = len(val)
 
         # Construct the return trajectory.
         assert npoints is not None
